@@ -272,6 +272,28 @@ def print_assumptions(relpaths, timeout=600):
     return out
 
 
+def run_model(exe, values, timeout=1800):
+    """Run a generic extracted tool (entry : json -> json) on a list of JSON
+    values; returns the list of results (dicts/lists/...)."""
+    import resource
+    def big_stack():
+        for lim in (resource.RLIM_INFINITY, 1 << 30):
+            try:
+                resource.setrlimit(resource.RLIMIT_STACK, (lim, lim))
+                return
+            except Exception:
+                continue
+    inp = "".join(json.dumps(v, separators=(",", ":")) + "\n" for v in values)
+    p = subprocess.run([exe], input=inp, stdout=subprocess.PIPE, stderr=subprocess.PIPE, text=True,
+                       timeout=timeout, preexec_fn=big_stack)
+    if p.returncode != 0:
+        raise RuntimeError("model %s failed (rc %d): %s" % (exe, p.returncode, p.stderr[-2000:]))
+    out = [json.loads(l) for l in p.stdout.splitlines() if l.strip()]
+    if len(out) != len(values):
+        raise RuntimeError("model %s returned %d results for %d inputs" % (exe, len(out), len(values)))
+    return out
+
+
 # --------------------------------------------------------------------------
 # PRNG: one splitmix64 state per run (replayable)
 
@@ -410,9 +432,10 @@ def proof_step(ctx, props_file, model_files, gen_writer=None, extra_obligation_f
         ctx.violation("forbidden construct in Coq development: %s" % bad[:5], found_input=False,
                       broken="development contains Admitted/Axiom/...: %s" % bad[:5])
     gen_files = gen_writer() if gen_writer else []
-    ok, log = coq_make()
-    failed = coq_failed_files(log) if not ok else []
     files = [props_file] + list(extra_obligation_files)
+    # build exactly what this property depends on (other properties' files cannot disturb it)
+    ok, log = coq_make(targets=[f[:-2] + ".vo" for f in files])
+    failed = coq_failed_files(log) if not ok else []
     obl = 0
     dis = 0
     for rp in files:
